@@ -70,12 +70,15 @@ def op1(ctx):
         if not ok and name == "map_mut_in":
             # `if !create_new { if too_small { return Err } }`: every path to the mapping call takes either the false edge of
             # the size test or the edge on which the local `create_new` is true (the file was just created and is empty)
-            size_sw = [x for x, c in res.conds.items() if tag(c) == "cmp" and c[1] == "Lt" and tag(c[2]) == "satsub"]
+            # the size test in either spelling: satsub(file_size, offset) < prefix  /  prefix > satsub(file_size, offset)
+            size_sw = [(x, 0) for x, c in res.conds.items() if tag(c) == "cmp" and ((c[1] == "Lt" and tag(c[2]) == "satsub") or (c[1] == "Gt" and tag(c[3]) == "satsub"))]
+            size_sw += [(x, 1) for x, c in res.conds.items() if tag(c) == "cmp" and ((c[1] == "Ge" and tag(c[2]) == "satsub") or (c[1] == "Le" and tag(c[3]) == "satsub"))]
             cn = [i for i, l in enumerate(b.locals) if l["name"] == "create_new"]
             if size_sw and cn:
-                x = size_sw[0]
+                x, passv = size_sw[0]
                 t = b.blocks[x]["term"]
-                pass_tgt = [bb for v, bb in t["arms"] if int(v) == 0][0]
+                arms = {int(v): bb for v, bb in t["arms"]}
+                pass_tgt = arms.get(passv, t["otherwise"])
                 removed = {(x, pass_tgt)}
                 for y, c in res.conds.items():
                     if y != x and b.dominates(y, x) and res.env_out.get(y, {}).get(cn[0]) == c:
